@@ -57,6 +57,7 @@ class Run:
         self.replay_len = len(prefix)
         self.pos = 0
         self.pc: list = []
+        self.ctx: list = []  # conditions of the enclosing short-circuit / conditional-expression operands
         self.effects: list = []
         self.notes: list = []
 
